@@ -22,18 +22,21 @@ where
                 kani::cover!(true, "[refused] the stub refused the chunk size");
                 return;
             };
+    // never run Drop for Bump on early-return paths (it walks the chunk list and calls the base allocator: pure cost)
+    let mut bump = core::mem::ManuallyDrop::new(bump);
             set_budget(0);
-            check_geometry(&bump, header_size, header_align);
+            check_geometry(&*bump, header_size, header_align);
             before_calls = calls();
             assert!(bump.stats().count() == 1, "C12: with_capacity created more than one chunk");
             let r = bump.allocate(layout);
             assert!(r.is_ok(), "C12: the layout a Bump was created for (with_capacity) does not fit");
             assert!(calls() == before_calls && bump.stats().count() == 1, "C12: allocating the with_capacity layout needed another chunk");
-            core::mem::forget(bump);
-        }
+                }
         2 => {
             set_budget(1);
             let Ok(bump) = Bump::<A, St>::try_new() else { return };
+    // never run Drop for Bump on early-return paths (it walks the chunk list and calls the base allocator: pure cost)
+    let mut bump = core::mem::ManuallyDrop::new(bump);
             set_budget(0);
             let n = layout.size() + bump.stats().remaining();
             set_budget(1);
@@ -41,11 +44,10 @@ where
             set_budget(0);
             if r.is_err() {
                 kani::cover!(true, "[refused] the stub refused the chunk size");
-                core::mem::forget(bump);
-                return;
+                            return;
             }
             kani::cover!(bump.stats().count() == 2, "reserve created a chunk");
-            check_geometry(&bump, header_size, header_align);
+            check_geometry(&*bump, header_size, header_align);
             // the promise of reserve: `n` more bytes can be allocated without a base-allocator call. The first chunk's
             // remainder and the new chunk together hold them; here: the part that did not fit in chunk 1
             before_calls = calls();
@@ -58,11 +60,12 @@ where
             let r = bump.allocate(l);
             assert!(r.is_ok(), "C12: reserved bytes cannot be allocated");
             assert!(calls() == before_calls, "C12: allocating reserved bytes called the base allocator");
-            core::mem::forget(bump);
-        }
+                }
         _ => {
             set_budget(1);
             let Ok(bump) = Bump::<A, St>::try_new() else { return };
+    // never run Drop for Bump on early-return paths (it walks the chunk list and calls the base allocator: pure cost)
+    let mut bump = core::mem::ManuallyDrop::new(bump);
             set_budget(0);
             // make the chunk too full for `layout`: leave less than its size
             let rest = bump.stats().current_chunk().unwrap().remaining();
@@ -76,19 +79,17 @@ where
             set_budget(0);
             if r.is_err() {
                 kani::cover!(true, "[refused] the stub refused the chunk size");
-                core::mem::forget(bump);
-                return;
+                            return;
             }
             // exactly one chunk was created and it served the request
             assert!(calls() == before_calls + 1, "C12: the slow path called the base allocator more than once");
             assert!(bump.stats().count() == 2, "C12: the slow path did not create exactly one chunk");
-            check_geometry(&bump, header_size, header_align);
+            check_geometry(&*bump, header_size, header_align);
             let p = addr(r.unwrap().cast());
             let c = bump.stats().current_chunk().unwrap();
             assert!(p >= addr(c.content_start()) && p + layout.size() <= addr(c.content_end()), "C12: block is not inside the chunk that was created for it");
             assert!(p % layout.align() == 0, "C12/C01: block misaligned");
-            core::mem::forget(bump);
-        }
+                }
     }
     kani::cover!(true, "END: harness ran to completion");
 }
@@ -99,7 +100,7 @@ where
 {
     let layout = any_layout(40, 5);
     kani::assume(layout.size() > 0);
-    let bump: Bump<A, S<1, UP, false>> = Bump::unallocated();
+    let bump = core::mem::ManuallyDrop::new(Bump::<A, S<1, UP, false>>::unallocated());
     set_budget(1);
     let r = bump.allocate(layout);
     set_budget(0);
@@ -108,12 +109,11 @@ where
         return;
     }
     assert!(calls() == 1 && bump.stats().count() == 1, "C12: first allocation of an unallocated arena did not create exactly one chunk");
-    check_geometry(&bump, header_size, header_align);
+    check_geometry(&*bump, header_size, header_align);
     let p = addr(r.unwrap().cast());
     assert!(p % layout.align() == 0, "C12/C01: block misaligned");
     let c = bump.stats().current_chunk().unwrap();
     assert!(p >= addr(c.content_start()) && p + layout.size() <= addr(c.content_end()), "C12: first block outside the chunk created for it");
-    core::mem::forget(bump);
     kani::cover!(true, "END: harness ran to completion");
 }
 
